@@ -100,7 +100,7 @@ pub fn make_invalid(rule: &str, tape: Vec<u32>) -> Option<Invalid> {
         "new-with-params" => inv("contract", "", citem.replacen("pub const fn new() -> Self", "pub const fn new(x: u32) -> Self", 1), "", citem.clone()),
         "interface-instantiate" | "interface-migrate" | "interface-generics" | "interface-no-error" | "interface-instantiate-after-helper" | "interface-migrate-after-helper" => {
             if p.interfaces.is_empty() {
-                p.interfaces.push(Interface { module: "if_a".into(), trait_name: "IfA".into(), explicit_as: false, assoc: vec![], assoc_names: vec![], style: CustomStyle::Plain, methods: vec![], msg_attrs: vec![] });
+                p.interfaces.push(Interface { module: "if_a".into(), trait_name: "IfA".into(), explicit_as: false, assoc: vec![], assoc_names: vec![], alias: None, style: CustomStyle::Plain, methods: vec![], msg_attrs: vec![] });
             }
             let i = &p.interfaces[t.pick(p.interfaces.len())];
             let valid = render::render_interface_item(&p, i);
